@@ -215,7 +215,11 @@ def _override(p_port: int, p_name: bool, p_rate: bool, p_debug: int, p_quiet: in
         argv += ["--sub-deep-pw", "hunter2"]
         want["sub"]["deep"]["pw"] = "hunter2"
     parser = early_parser or generate_argparse_parser(schema, prog="t", add_help=False)
-    args = parser.parse_args(argv)
+    try:
+        args = parser.parse_args(argv)
+    except SystemExit:
+        # every value on this command line is acceptable to its field: the parser must not refuse it itself
+        return hold("override", False, lambda: "the generated parser refused the command line %r" % (argv,))
     # a bare string names ONE option: "port", or (ig_flag too) "sub.level_x", of which "level_x" is a substring
     ign = ("sub.level_x" if ig_flag else "port") if ig_as_str else ignore
     try:
